@@ -120,6 +120,13 @@ def zoo():
   for cd in (True, False):
     z.append(_mergeable(f'TopKWordNGrams-2gram-count_duplicate={cd}', lambda cd=cd: tx.TopKWordNGrams(k=4, n=2, count_duplicate=cd), shared, lambda a: _norm(a.result()), as_array=False))
     z.append(_mergeable(f'PatternFrequency-count_duplicate={cd}', lambda cd=cd: tx.PatternFrequency(patterns=['cat', 'sat', 'dog'], count_duplicate=cd), shared, lambda a: _norm(a.result()), as_array=False))
+  # the long tail matters: an n-gram outside the current top k can still end up on top (a state must not forget it)
+  riser = [('x',), ('x',), ('y',), ('z',), ('y',), ('y',)]
+  z.append(_mergeable('TopKWordNGrams-k1-late-riser', lambda: tx.TopKWordNGrams(k=1, n=1), riser, lambda a: _norm(a.result()), as_array=False))
+  z.append(_mergeable('PatternFrequency-late-riser', lambda: tx.PatternFrequency(patterns=['x', 'y', 'z']), riser, lambda a: _norm(a.result()), as_array=False))
+  fillers = ' '.join(f'f{chr(97 + i // 26)}{chr(97 + i % 26)}' for i in range(130))
+  many = [(fillers + ' ' + fillers + ' zzz',), ('zzz',), ('zzz',)]       # 131 distinct 1-grams: 130 fillers twice, zzz three times
+  z.append(_mergeable('TopKWordNGrams-k1-many-distinct', lambda: tx.TopKWordNGrams(k=1, n=1), many, lambda a: _norm(a.result()), as_array=False))
   yl = [(0.1, 0.2), (0.8, 0.9), (0.4, 0.3), (0.6, 0.7)]
   z.append(_mergeable('CalibrationHistogram', lambda: mcl.CalibrationHistogram(bins=4), yl, lambda a: _norm(a.result())))
   # classification
